@@ -581,6 +581,44 @@ MATRYER_OPTS = [{}, {"skip-ensure": True}, {"stub-impl": True}, {"with-resets": 
                 {"stub-impl": True, "with-resets": True, "mock-build-tags": "mocktag"}, {"skip-ensure": True, "boilerplate-file": "x", "mock-build-tags": "mocktag"}]
 
 
+class C01Gen(gen_pkgs.DenseGen):
+    """DenseGen plus anonymous interface literals that embed an interface and declare own methods whose names sort after
+    (Zz*, Use*) or before (Aa*) the embedded methods (Read, Write, Handle, Deadline...), the own methods mentioning named types
+    of one or two other packages: the import walk has to visit every EXPLICIT method of the literal."""
+    anon = 0.06
+
+    def ty(self, tparams, depth=0):
+        if self.anon and depth < self.max_depth and self.rng.random() < self.anon:
+            return self.anon_iface(tparams)
+        return super().ty(tparams, depth)
+
+    def anon_iface(self, tparams):
+        rng = self.rng
+        emb = [gen_pkgs.named("io", "Reader"), gen_pkgs.named("io", "Writer"), gen_pkgs.named("context", "Context")]
+        emb += [gen_pkgs.named(e["path"], "Handler") for e in self.ext]
+        embeds = rng.sample(emb, rng.choice([1, 1, 2]))
+        if sum(1 for e in embeds if e["n"] == "Handler") > 1:
+            embeds = embeds[:1]
+
+        def foreign():
+            if self.ext and rng.random() < 0.7:
+                return gen_pkgs.named(rng.choice(self.ext)["path"], rng.choice(["Client", "Key"]))
+            return gen_pkgs.named("time", rng.choice(["Duration", "Time"]))
+        ms = []
+        for name in rng.sample(["Zz", "Use", "Aa", "Via"], rng.choice([1, 1, 2])):
+            ps = [{"n": rng.choice(["", "x"]), "t": {"k": "ptr", "e": foreign()}}]
+            if rng.random() < 0.4:
+                ps.append({"n": ps[0]["n"] and "y", "t": foreign()})
+            ms.append({"n": name, "sig": {"params": ps, "variadic": False,
+                                          "results": [{"n": "", "t": foreign()}] if rng.random() < 0.5 else []}})
+        return {"k": "iface", "methods": ms, "embeds": embeds}
+
+    def constraint(self, prev):
+        if self.anon and self.rng.random() < self.anon:
+            return self.anon_iface(prev), False
+        return super().constraint(prev)
+
+
 def gen_module(rng, k):
     pools = ("ordinary", "qualifier", "predeclared", "typelike", "case")
     if k % 3 == 1:
@@ -588,7 +626,7 @@ def gen_module(rng, k):
     # DenseGen: a fifth of the types mention one package several times through 1- and 2-argument generic instantiations in
     # every position (map[box.Key]box.Box[unit.Meters]): a package reached only through type arguments must still be
     # imported and qualified.  name_tuples=0: the X / X1 parameter-name tuples belong to C14's classes.
-    g = gen_pkgs.DenseGen(rng, dense=0.2, name_tuples=0.0, pools=pools, n_ifaces=(3, 6), n_methods=(0, 4))
+    g = C01Gen(rng, dense=0.2, name_tuples=0.0, pools=pools, n_ifaces=(3, 6), n_methods=(0, 4))
     method_names = None
     if k % 5 == 4:                                  # a few method names inside the mocks' own API: outside the guarantee, counted
         method_names = ["Do", "Get", "Put", "Close", "List", "Watch", "Apply", "Len", "String", "Each", "unexp",
@@ -597,7 +635,7 @@ def gen_module(rng, k):
 
 
 SHAPES = ["ShapesPlain", "ShapesVariadic1", "ShapesVariadic0", "ShapesVariadic2", "ShapesAllocated", "ShapesGeneric", "ShapesConstraint",
-          "ShapesEmbedded", "ShapesLongUnnamed", "ShapesLongNamed", "ShapesEmpty"]
+          "ShapesEmbedded", "ShapesLongUnnamed", "ShapesLongNamed", "ShapesAnonIface", "ShapesAnonConstraint", "ShapesEmpty"]
 
 
 def corpus_module():
